@@ -65,7 +65,8 @@ func (fr *Frame) execCall(b *ssa.BasicBlock, st *State, ins ssa.CallInstruction)
 
 func (fr *Frame) havocAll(st *State) {
 	fc := fr.fc
-	for name, sort := range fc.varSort {
+	for _, name := range sortedKeys(fc.varSort) {
+		sort := fc.varSort[name]
 		if name == hAlloc {
 			old := fc.get(st, hAlloc)
 			nv := fc.freshConst(hAlloc, "Int")
@@ -163,7 +164,7 @@ func (fr *Frame) inlineCall(b *ssa.BasicBlock, st *State, callee *ssa.Function, 
 			keys[k] = true
 		}
 	}
-	for k := range keys {
+	for _, k := range sortedKeys(keys) {
 		terms := make([]string, len(sub.rets))
 		same := true
 		for i, r := range sub.rets {
@@ -478,7 +479,8 @@ func (fr *Frame) modTargets(m ModLoc, env *SpecEnv) []modTarget {
 				}
 			}
 			r := sApp("ipay", fr.scalar(v))
-			for name, sort := range fc.varSort {
+			for _, name := range sortedKeys(fc.varSort) {
+				sort := fc.varSort[name]
 				if strings.HasPrefix(name, "F:") {
 					out = append(out, modTarget{"row1", name, sort, r})
 				}
@@ -488,7 +490,7 @@ func (fr *Frame) modTargets(m ModLoc, env *SpecEnv) []modTarget {
 			// onlyfresh("substr"): in heaps whose name contains substr only objects allocated later are written
 			if id, ok := e.Args[0].(*EStr); ok {
 				var out []modTarget
-				for name := range fc.varSort {
+				for _, name := range sortedKeys(fc.varSort) {
 					if strings.Contains(name, id.V) && name != hAlloc {
 						out = append(out, modTarget{"none", name, fc.varSort[name], ""})
 					}
@@ -499,7 +501,7 @@ func (fr *Frame) modTargets(m ModLoc, env *SpecEnv) []modTarget {
 			// heap(name): whole heap variable by (suffix) name
 			if id, ok := e.Args[0].(*EStr); ok {
 				var out []modTarget
-				for name := range fc.varSort {
+				for _, name := range sortedKeys(fc.varSort) {
 					if strings.Contains(name, id.V) {
 						out = append(out, modTarget{"whole", name, "", ""})
 					}
@@ -508,7 +510,7 @@ func (fr *Frame) modTargets(m ModLoc, env *SpecEnv) []modTarget {
 			}
 		case "everything":
 			var out []modTarget
-			for name := range fc.varSort {
+			for _, name := range sortedKeys(fc.varSort) {
 				if name != hAlloc {
 					out = append(out, modTarget{"whole", name, "", ""})
 				}
@@ -621,7 +623,7 @@ func (fr *Frame) execInvoke(b *ssa.BasicBlock, st *State, ins ssa.CallInstructio
 			keys[k] = true
 		}
 	}
-	for k := range keys {
+	for _, k := range sortedKeys(keys) {
 		terms := make([]string, len(brs))
 		same := true
 		for i, br := range brs {
